@@ -213,6 +213,7 @@ class LogActionResult(ActionResult):
         :return: an action callback if we need to do something at the 'end', or None
         """
         tracepoint_logger = ctx.config.tracepoint_logger
-        if tracepoint_logger:
+        # (by identity: a logger can be an object that is falsy - one that buffers and has a __len__)
+        if tracepoint_logger is not None:
             tracepoint_logger.log_tracepoint(self.log, self.action.id, ctx.id)
         return None
